@@ -20,6 +20,7 @@
 import OpmVerif.Proofs.RstSlots
 import OpmVerif.Proofs.RstSolution
 import OpmVerif.Proofs.RstGroup
+import OpmVerif.Proofs.RstMsw
 
 namespace OpmVerif.Props.C05
 open OpmVerif.RstWindow OpmVerif.RstSlot OpmVerif.Gen.RstSlots OpmVerif.Ecl OpmVerif.Unrst
@@ -211,18 +212,37 @@ class (the decode ∘ encode theorems `field_roundtrip_int` / `field_roundtrip_r
 declared member (exceed_action under GCONPROD FLD), which is a real information loss; every XGRP member of RstGroup
 reads the item its summary vector is written to with that vector's measure, for groups and FIELD alike, except the four
 declared members (liquid_production_rate reads the item that holds GVPR; voidage_production_total, oil/water_production_potential
-convert with another measure than the vector has) — and those really disagree. -/
+convert with another measure than the vector has) — and those really disagree; every IGRP / SGRP member with a stated
+meaning is fed from the source quantity of that meaning by the writer function of its own phase. -/
 theorem group_tables_agree :
     (∀ p ∈ gpairs gwriter greader, gpairCls p ≠ .mismatch ∨ (gdeclaredExceptions.lookup p.2.field).isSome) ∧
     (∀ x ∈ gdeclaredExceptions, ∃ p ∈ gpairs gwriter greader, p.2.field = x.1 ∧ gpairCls p = .mismatch) ∧
     (∀ r ∈ greader, r.arr = "XGRP" →
       (xcls groupKeyToIndex 'G' r = xcls fieldKeyToIndex 'F' r) ∧
       xcls groupKeyToIndex 'G' r = (xdeclaredExceptions.lookup r.field).getD .ok) ∧
-    (∀ r ∈ greader, r.arr = "XGRP" → (groupFieldMeaning.lookup r.field).isSome) :=
-  ⟨group_pairs_classified, group_exceptions_all_occur, xgrp_members_agree, xgrp_every_member_has_meaning⟩
+    (∀ r ∈ greader, r.arr = "XGRP" → (groupFieldMeaning.lookup r.field).isSome) ∧
+    (∀ p ∈ gpairs gwriter greader, ∀ allowed, groupSourceMeaning.lookup p.2.field = some allowed →
+      p.1.src ∈ allowed ∧ (groupPhaseOfFn p.1.fn = "any" ∨ groupPhaseOfField p.2.field = "any" ∨ groupPhaseOfFn p.1.fn = groupPhaseOfField p.2.field)) :=
+  ⟨group_pairs_classified, group_exceptions_all_occur, xgrp_members_agree, xgrp_every_member_has_meaning, group_source_meanings⟩
+
+open OpmVerif.RstMsw OpmVerif.Gen.RstMsw in
+/-- Multi-segment wells (second round): the ISEG / RSEG tables regenerated from AggregateMSWData.cpp (stores at
+`<segment base> + item`) and rst/segment.cpp: item names injective, named entries use their enum's item number, and
+every (writer entry, reader entry) pair on one item is in a compatible class — lengths, densities, viscosities exact,
+areas as k-fold length-unit factors (`exactScale`), pressure from the WBHP summary vector — except four declared
+members of RstSegment (volume, total_flow, transition_region_width, max_valid_flow_rate), each a real disagreement. -/
+theorem msw_tables_agree :
+    (((senumOf "ISeg.index").map (·.2)).Nodup ∧ ((senumOf "RSeg.index").map (·.2)).Nodup) ∧
+    ((∀ e ∈ swriter, e.cls = "named" → e.slot.front ≠ '#' →
+        (senumOf (if e.arr = "ISEG" then "ISeg.index" else "RSeg.index")).lookup e.slot = some e.idx) ∧
+     (∀ e ∈ sreader, 0 ≤ e.idx → (senumOf (if e.arr = "ISEG" then "ISeg.index" else "RSeg.index")).lookup e.slot = some e.idx)) ∧
+    ((∀ p ∈ spairs swriter sreader, spairCls p ≠ .mismatch ∨ (sdeclaredExceptions.lookup p.2.field).isSome) ∧
+     (∀ x ∈ sdeclaredExceptions, ∃ p ∈ spairs swriter sreader, p.2.field = x.1 ∧ spairCls p = .mismatch)) :=
+  ⟨msw_index_enums_injective, msw_named_slots, msw_pairs_classified⟩
 
 /-! Non-vacuity. -/
 
+example : (OpmVerif.RstMsw.spairs OpmVerif.Gen.RstMsw.swriter OpmVerif.Gen.RstMsw.sreader).length = 44 := by decide +kernel
 -- group tables: sizes of what the theorems range over, and an IGRP window with three children under NWGMAX = 5
 example : (OpmVerif.RstGroup.gpairs OpmVerif.Gen.RstGroup.gwriter OpmVerif.Gen.RstGroup.greader).length = 37 := by decide +kernel
 example : (OpmVerif.Gen.RstGroup.greader.filter fun r => r.arr = "XGRP").length = 24 := by decide +kernel
